@@ -165,6 +165,20 @@ CHECKS = {
         technique="Lean 4 proof (scan = declarative spec, dispatch case analysis) + CLI correspondence",
         design="§4 C17",
     ),
+    "C13": dict(
+        text="PARTIAL. Lean theorems about a small-step model of `db reindex` / `db create` (Model/Crash.lean: the run as the list of its external effects "
+        "- commits, hash-map and page replacements - in the code's order, on top of C06's store model): for EVERY crash point k and every store satisfying "
+        "C06's invariant, killing before effect k and running the command again yields full agreement of index, hash map and files, keeps every page's user "
+        "text and the set of pages (C13_reindex, C13_create); the crash-state invariant; the complete effect list equals the big-step run; no ZID is "
+        "assigned twice across a kill (C07's allocation theorem over the concatenated allocation sequences); kernel-checked counterexample showing that "
+        "the effect order before the repair does not converge.  Tied to the code by (i) trace correspondence: effect order and hash-map payloads of every "
+        "uninterrupted real run vs the model's effect list, (ii) fault injection at every effect boundary of real runs (kill = BaseException before the "
+        "effect, rollback), rerun, comparison with the uninterrupted run; torn writes for direct file writes (all writes in thorough).",
+        note=NOTE_STD + "Effects are atomic and ordered: fsync ordering, power loss and SQLite journal recovery are below the model (that is why this is partial). "
+        "The damaged page versions left by the commits inside remove_file_by_name are arbitrary in the model. next_ids.json / whitelist are outside the store model.",
+        technique="Lean 4 proof (crash-state invariant over effect prefixes, refinement to C06's big-step reindex) + trace correspondence + fault injection",
+        design="§4 C13",
+    ),
     "C07": dict(
         text="Lean theorems about a model of _zid_manager.py transcribed character by character (odometer rank induction: "
         "uniqueness for every allocation sequence and restart pattern, shape, exhaustion point; the generated exclusion list "
@@ -202,6 +216,7 @@ def main():
         for pid in ALL
         if pid not in CHECKS
     ]
+    assert not na
     m = {
         "version": 1,
         "setup_cmd": "cd lean && lake build ZorgVerif driver",
